@@ -42,6 +42,16 @@ def pair_cases(chk):
         for b in ws:
             cases.append(("vcmp", [0, a, b"", 0, b, b""]))
     streams = {"exhaustive-len2": len(cases)}
+    # exhaustive: the order of every pair of characters of the whole version alphabet (and end of string), after a
+    # common prefix, in the upstream part and in the revision
+    full = [b""] + [bytes([c]) for c in b"0123456789abcdefghijklmnopqrstuvwxyzABCDEFGHIJKLMNOPQRSTUVWXYZ.+~-:"]
+    n0 = len(cases)
+    for x in full:
+        for y in full:
+            cases.append(("vcmp", [0, b"1.0" + x, b"", 0, b"1.0" + y, b""]))
+            if x not in (b"-", b":") and y not in (b"-", b":"):
+                cases.append(("vcmp", [0, b"1", b"1" + x, 0, b"1", b"1" + y]))
+    streams["exhaustive-character-pairs"] = len(cases) - n0
     ws3 = gen.words(SYMS, 3)
     k = chk.n(30000, 600000)
     for _ in range(k):
